@@ -256,22 +256,9 @@ void splinetable<Alloc>::read_fits_data(fitsfile* fits, const std::string& fileP
 	
 	//Read the spline orders
 	order = allocate<uint32_t>(ndim);
-	//See if there is a single order value
-	fits_read_key(fits, TINT, "ORDER", &order[0], NULL, &error);
-	if (error != 0) {
-		error = 0;
-		
-		//There is not, so look for a separate order in each dimension
-		for (unsigned i = 0; i < ndim; i++) {
-			std::ostringstream ss;
-			ss << "ORDER" << i;
-			fits_read_key(fits, TUINT, ss.str().c_str(), &order[i], NULL, &error);
-			if (error != 0)
-				throw std::runtime_error("Unable to read order for dimension "+std::to_string(i));
-		}
-	} else {
-		//all orders are the same
-		std::fill(order+1,order+ndim,order[0]);
+	{
+		std::vector<uint32_t> order_temp = readOrder(fits, ndim);
+		std::copy(order_temp.begin(),order_temp.end(),order);
 	}
 	
 	//read the table periods
@@ -304,7 +291,7 @@ void splinetable<Alloc>::read_fits_data(fitsfile* fits, const std::string& fileP
 	if (error != 0)
 		throw std::runtime_error("Unable to read coefficient array 'image' size: Error "+std::to_string(error));
 	for(size_t i=0; i<ndim; i++){
-		if(naxes_temp[i]<0)
+		if(naxes_temp[i]<=0)
 			throw std::runtime_error("Invalid size in dimension "+std::to_string(i));
 	}
 	naxes = allocate<uint64_t>(ndim);
@@ -337,6 +324,12 @@ void splinetable<Alloc>::read_fits_data(fitsfile* fits, const std::string& fileP
 		std::ostringstream hduname;
 		hduname << "KNOTS" << i;
 		fits_movnam_hdu(fits, IMAGE_HDU, const_cast<char*>(hduname.str().c_str()), 0, &error);
+		int knots_dim = 0;
+		fits_get_img_dim(fits, &knots_dim, &error);
+		if (error != 0)
+			throw std::runtime_error("Error finding knot vector "+std::to_string(i));
+		if (knots_dim != 1)
+			throw std::runtime_error("Knot vector "+std::to_string(i)+" is not one dimensional");
 		long nknots_temp;
 		fits_get_img_size(fits, 1, &nknots_temp, &error);
 		
@@ -344,6 +337,13 @@ void splinetable<Alloc>::read_fits_data(fitsfile* fits, const std::string& fileP
 			throw std::runtime_error("Error reading size of knot vector "+std::to_string(i));
 		if(nknots_temp<=0)
 			throw std::runtime_error("Invalid number of knots ("+std::to_string(nknots_temp)+") in dimension "+std::to_string(i));
+		//A spline of order n needs at least n+1 coefficients, so 2n+2 knots,
+		//and every coefficient needs its n+2 knots. Checking this before
+		//allocating also keeps the padded size below from overflowing.
+		if((uint64_t)nknots_temp < 2*(uint64_t)order[i]+2)
+			throw std::runtime_error("Too few knots ("+std::to_string(nknots_temp)+") for a spline of order "+std::to_string(order[i])+" in dimension "+std::to_string(i));
+		if(naxes[i] != (uint64_t)nknots_temp-order[i]-1)
+			throw std::runtime_error("Number of coefficients ("+std::to_string(naxes[i])+") in dimension "+std::to_string(i)+" does not match "+std::to_string(nknots_temp)+" knots of order "+std::to_string(order[i]));
 		nknots[i]=nknots_temp;
 		
 		//Allow spline evaluations to run off the ends of the
@@ -355,6 +355,12 @@ void splinetable<Alloc>::read_fits_data(fitsfile* fits, const std::string& fileP
 		fits_read_pix(fits, TDOUBLE, &fpix, nknots[i], NULL, &knots[i][0], NULL, &error);
 		if (error != 0)
 			throw std::runtime_error("Error reading knot vector "+std::to_string(i)+" data");
+		for (uint64_t j = 0; j < nknots[i]; j++) {
+			if (!std::isfinite(knots[i][j]))
+				throw std::runtime_error("Knot "+std::to_string(j)+" in dimension "+std::to_string(i)+" is not finite");
+			if (j > 0 && knots[i][j] < knots[i][j-1])
+				throw std::runtime_error("Knots in dimension "+std::to_string(i)+" are not in sorted order");
+		}
 	}
 	
 	//Read the axes extents, stored in a single extension HDU.
@@ -366,8 +372,13 @@ void splinetable<Alloc>::read_fits_data(fitsfile* fits, const std::string& fileP
 		long n_extents = 0;
 		long fpix = 1;
 		int ext_error = 0;
+		int ext_dim = 0;
 		fits_movnam_hdu(fits, IMAGE_HDU, const_cast<char*>("EXTENTS"), 0, &ext_error);
-		fits_get_img_size(fits, 1, &n_extents, &ext_error);
+		fits_get_img_dim(fits, &ext_dim, &ext_error);
+		if (ext_error == 0 && ext_dim != 1)
+			ext_error = 1;
+		if (ext_error == 0)
+			fits_get_img_size(fits, 1, &n_extents, &ext_error);
 		if (n_extents != 2*ndim)
 			ext_error = 1;
 		
